@@ -15,7 +15,8 @@ Record numops := {
 Definition Qltb (a b : Q) : bool := negb (Qle_bool b a).
 Definition Qops : numops := {|
   V := Q; n0 := 0%Q; n1 := 1%Q;
-  nadd := Qplus; nsub := Qminus; nmul := Qmult; ndiv := Qdiv; nopp := Qopp;
+  nadd := fun a b => Qred (Qplus a b); nsub := fun a b => Qred (Qminus a b);
+  nmul := fun a b => Qred (Qmult a b); ndiv := fun a b => Qred (Qdiv a b); nopp := Qopp;
   nltb := Qltb; nleb := Qle_bool; neqb := Qeq_bool |}.
 
 Definition Rltb (a b : R) : bool := if Rlt_dec a b then true else false.
